@@ -146,6 +146,7 @@ var lastExpect string
 // ---------------------------------------------------------------- B. indexed tx cache
 
 type iState struct {
+	mf      bool
 	cache   *indexers.TxCache
 	vol     int
 	backing map[int][2]int // id → (height, payload): the index
@@ -452,9 +453,14 @@ func exec(t []string) string {
 		max := atoi(t[1])
 		blockchain.MaxReferenceSize = max
 		st := &txStore{m: map[common.Uint256]interfaces.Transaction{}}
-		U = &uState{store: st, cache: blockchain.NewUTXOCache(st, &config.DefaultParams), max: max, outs: map[int][]int{},
+		up := *config.GetDefaultParams()
+		up.MemoryFirst = len(t) > 2 && t[2] == "1" // the constructor then lowers MaxReferenceSize itself
+		cache := blockchain.NewUTXOCache(st, &up)
+		max = blockchain.MaxReferenceSize
+		defer func() { lastExpect = "" }()
+		U = &uState{store: st, cache: cache, max: max, outs: map[int][]int{},
 			hashOf: map[int]common.Uint256{}, idOf: map[common.Uint256]int{}}
-		return "ok"
+		return fmt.Sprintf("ok max=%d", max)
 	case "u.put":
 		id := atoi(t[1])
 		var outs []int
@@ -550,7 +556,7 @@ func exec(t []string) string {
 		p := *config.GetDefaultParams()
 		p.TxCacheVolume = uint32(vol)
 		p.MemoryFirst = t[2] == "1"
-		I = &iState{cache: indexers.NewTxCache(&p), vol: vol, backing: map[int][2]int{}, tx: map[int]interfaces.Transaction{}}
+		I = &iState{mf: p.MemoryFirst, cache: indexers.NewTxCache(&p), vol: vol, backing: map[int][2]int{}, tx: map[int]interfaces.Transaction{}}
 		return "ok"
 	case "i.connect": // i.connect <height> <id:payload:cacheable,…> <spent ids>
 		h := atoi(t[1])
@@ -585,6 +591,20 @@ func exec(t []string) string {
 		if I.cache.VerifLen() != before {
 			I.trimmed = true
 		}
+		return fmt.Sprintf("ok len=%d", I.cache.VerifLen())
+	case "i.roundtrip": // the cache is written out and read back (TxCache.Serialize / Deserialize, the index checkpoint)
+		buf := new(bytes.Buffer)
+		if err := I.cache.Serialize(buf); err != nil {
+			return "err serialize"
+		}
+		p := *config.GetDefaultParams()
+		p.TxCacheVolume = uint32(I.vol)
+		p.MemoryFirst = I.mf
+		nc := indexers.NewTxCache(&p)
+		if err := nc.Deserialize(buf); err != nil {
+			return "err deserialize"
+		}
+		I.cache = nc
 		return fmt.Sprintf("ok len=%d", I.cache.VerifLen())
 	case "i.fetch":
 		id := atoi(t[1])
